@@ -49,10 +49,14 @@ def container_ids(v, out=None):
         out[id(v)] = v
         for x in v.values():
             container_ids(x, out)
-    elif isinstance(v, list):
-        out[id(v)] = v
+    elif isinstance(v, (list, tuple)):
+        if isinstance(v, list):
+            out[id(v)] = v
         for x in v:
             container_ids(x, out)
+    elif isinstance(v, S.Arr):
+        for c in v.flat_cells():  # array memory: two arrays (or views) that share a cell share storage
+            out[id(c)] = c
     return out
 
 
